@@ -20,7 +20,7 @@ func init() {
 			"R3 a range over a string whose rune reaches the output without separating utf8.RuneError/width 1 collapses invalid bytes to U+FFFD. " +
 			"R4 needQuoteSQLIdent and the lexer's identifier scan use the same classifiers and keyword table (resolved callees) and QuoteSQLIdent returns its argument unquoted only on the false edge of needQuoteSQLIdent. " +
 			"Does not decide: unicode.IsPrint behaviour over the whole rune range.",
-		Rules: []ruleFn{ruleC14R1, ruleC14R2, ruleC14R7, ruleC15R1, ruleC15R2, ruleC15R3, ruleC15R4},
+		Rules: []ruleFn{ruleC14R1, ruleC14R2, ruleC14R7, ruleC15R1, ruleC15R2, ruleC15R3, ruleC15R4, ruleC15R5},
 	})
 }
 
